@@ -119,7 +119,7 @@ func runCLIMode(ctx context.Context, c *Case, m Mode, hcl bool, root string) (re
 		return
 	}
 	res.NChanges = len(changes)
-	res.PlanKinds = planKinds(ctx, client, changes)
+	res.PlanKinds, res.Creates = planKinds(ctx, client, changes)
 	client.Close()
 	// the model's input (as in the api stage)
 	res.TieCase, res.TieSkip = tieCase(ctx, before, cur, changes, m.FK, m.Tx, -1)
@@ -150,7 +150,7 @@ func runCLIMode(ctx context.Context, c *Case, m Mode, hcl bool, root string) (re
 		res.TieSkip = "rowid-alias-null"
 	}
 	if res.TieSkip == "" {
-		res.TieObs = tieObs(before, after, res.ErrClass)
+		res.TieObs = withCreates(tieObs(before, after, res.ErrClass), res.Creates)
 		if res.TieObs == nil {
 			res.TieSkip = "refusal-not-modelled"
 		}
